@@ -1224,24 +1224,35 @@ func runC04One(c *Ctx) {
 			c.bad(t.field+"|writers", fn.Pos(), "also written by "+strings.Join(others, ", "))
 		}
 	}
-	// Err(): lexer error first, else parser error; callers of Parse report the single error once
-	for _, fname := range []string{"(*RuleExpression).checkSemantics"} {
-		var fn *ssa.Function
-		for _, f := range p.Funcs {
-			if FuncName(f) == fname {
-				fn = f
-			}
-		}
-		if fn == nil {
-			c.anchorMissing(fname)
+	// Err(): lexer error first, else parser error; the functions of the expression rule that parse a placeholder report
+	// the single error once and check nothing else in that placeholder
+	nOne := 0
+	for _, fn := range p.Funcs {
+		if !strings.HasSuffix(p.unitFile(fn), "/rule_expression.go") || len(findCalls(fn, "(*ExprParser).Parse")) == 0 {
 			continue
 		}
+		fname := FuncName(fn)
+		parses := findCalls(fn, "(*ExprParser).Parse")
 		calls := findCalls(fn, "(*RuleExpression).exprError")
-		okOnce := len(calls) == 1 && !blockInCycle(calls[0].Block())
-		if okOnce {
-			// followed by a return without semantic checks
+		if len(calls) == 0 {
+			continue
+		}
+		nOne++
+		okOnce := true
+		for _, ec := range calls {
+			// after the report: no semantic check, no second report and no further parse of the same scalar
 			for _, ch := range findCalls(fn, "(*RuleExpression).checkSemanticsOfExprNode") {
-				if instrReachableAfter(calls[0], ch) {
+				if instrReachableAfter(ec, ch) {
+					okOnce = false
+				}
+			}
+			for _, e2 := range calls {
+				if instrReachableAfter(ec, e2) {
+					okOnce = false
+				}
+			}
+			for _, pc := range parses {
+				if instrReachableAfter(ec, pc) {
 					okOnce = false
 				}
 			}
@@ -1251,6 +1262,9 @@ func runC04One(c *Ctx) {
 		} else {
 			c.bad(fname+"|one syntax diagnostic", fn.Pos(), "a syntax error is not reported exactly once")
 		}
+	}
+	if nOne == 0 {
+		c.anchorMissing("a function of rule_expression.go that parses a placeholder and reports the syntax error")
 	}
 }
 
